@@ -4,7 +4,7 @@ from __future__ import annotations
 import ast
 from typing import Dict, Iterable, List, Optional, Set, Tuple
 
-from ..index import FuncInfo
+from ..index import AnalysisError, FuncInfo
 from ..pta import Mutation, Obj
 from ..report import Ctx
 from . import common as C
@@ -61,3 +61,37 @@ def fresh_in(reach: Set[str], o: Obj) -> bool:
 def mutations_in(ctx: Ctx, reach: Set[str]) -> List[Mutation]:
     roles = C.roles_of(ctx)
     return [m for m in roles.mutations() if roles.fq(m.func) in reach]
+
+
+LOCAL_ALLOCATORS = {'ndarray', 'zeros', 'ones', 'empty', 'full', 'array', 'copy', 'zeros_like', 'ones_like',
+                    'empty_like', 'full_like', 'arange', 'linspace', 'deepcopy', 'list', 'dict'}
+
+
+def store_is_path_local(ctx: Ctx, m: Mutation) -> bool:
+    """Flow-sensitive second opinion on a mutation the (flow-insensitive) points-to relation attributes to a foreign
+    object: on every path of the function that contains it, the store at that statement writes into an object
+    allocated earlier on the same path (a constructor call or a numpy allocation of this activation).  A helper that
+    allocates an array, fills it in one branch by a call and in another by element stores is the typical case."""
+    cache = getattr(ctx, '_path_local_cache', None)
+    if cache is None:
+        cache = ctx._path_local_cache = {}
+    f = m.func
+    key = (f.qualname, getattr(m.node, 'lineno', None))
+    if key in cache:
+        return cache[key]
+    ok = False
+    try:
+        if f.kind == 'function' and key[1] is not None:
+            evs = []
+            for p in ctx.explorer(raw=True, unroll=1, max_paths=2000).explore(f):
+                evs += [e for e in p.events if e.kind == 'store' and e.func is f and e.depth == 0 and
+                        getattr(e.node, 'lineno', None) == key[1] and e.d['tkind'] in ('attr', 'sub', 'aug')]
+            def local(b):
+                a = b.single_atom() if hasattr(b, 'single_atom') else None
+                return isinstance(a, tuple) and len(a) >= 2 and (
+                    a[0] == 'fresh' or (a[0] == 'call' and a[1] in LOCAL_ALLOCATORS))
+            ok = bool(evs) and all(e.d['base'] is not None and local(e.d['base']) for e in evs)
+    except AnalysisError:
+        ok = False
+    cache[key] = ok
+    return ok
